@@ -29,12 +29,14 @@ Idx(v) == IF v = 0 THEN 0 ELSE IF \E i \in 1..Len(started) : started[i] = v THEN
 Init == l = 1 /\ ops = <<>> /\ readHeld = {} /\ writeHeld = {} /\ started = <<>> /\ done = 0 /\ maybe = FALSE /\ cut = FALSE /\ bad = <<>>
 Reset == /\ Is("reset") /\ ops' = <<>> /\ readHeld' = {} /\ writeHeld' = {} /\ started' = <<>> /\ done' = 0 /\ maybe' = FALSE /\ cut' = FALSE /\ bad' = bad
 
-Start == /\ Is("rw_start") /\ ops' = Put(ops, Ev.op, [kind |-> Ev.kind, doneAtStart |-> done])
+Start == /\ Is("rw_start") /\ ops' = Put(ops, Ev.op, [kind |-> Ev.kind, doneAtStart |-> done, ep |-> Ev.ep])
          /\ UNCHANGED <<readHeld, writeHeld, started, done, maybe, cut, bad>>
 
+Remote(op) == op \in DOMAIN ops /\ ops[op].ep # 1
 Acq == /\ Is("rw_acq")
        /\ LET o == ops[Ev.op]  v == Ev.value  i == Idx(v) IN
-          IF o.kind = "read" THEN
+          IF cut /\ o.ep # 1 THEN UNCHANGED <<readHeld, writeHeld, bad>>     \* the cut-off endpoint only has its stale cache
+          ELSE IF o.kind = "read" THEN
                /\ readHeld' = readHeld \cup {Ev.op} /\ UNCHANGED writeHeld
                /\ bad' = IF writeHeld # {} THEN Flag("C17", "read guard obtained while a write guard is held")
                          ELSE IF i < 0 THEN Flag("C17", "read returned a value that was never committed")
@@ -52,7 +54,8 @@ Rel == /\ Is("rw_rel") /\ readHeld' = readHeld \ {Ev.op}
 \* commit() consumes the guard: from here on the value travels to the owner, which may serve other requests
 \* as soon as it has stored it (before the confirmation reaches the writer)
 CommitStart == /\ Is("rw_commit_start") /\ started' = Append(started, Ev.value) /\ writeHeld' = writeHeld \ {Ev.op}
-               /\ UNCHANGED <<ops, readHeld, done, maybe, cut, bad>>
+               /\ maybe' = (maybe \/ (cut /\ Remote(Ev.op)))
+               /\ UNCHANGED <<ops, readHeld, done, cut, bad>>
 CommitDone == /\ Is("rw_commit_done") /\ UNCHANGED writeHeld
               /\ IF Ev.ok THEN done' = Len(started) /\ UNCHANGED maybe
                  ELSE \* the confirmation was lost: the value may or may not have been stored
@@ -65,8 +68,10 @@ Err == /\ Is("rw_err")
        /\ bad' = IF ~cut THEN Flag("C17", "lock request failed although the owner is reachable") ELSE bad
        /\ UNCHANGED <<ops, readHeld, writeHeld, started, done, maybe, cut>>
 Fault == /\ Is("fault") /\ cut' = TRUE
-         \* guards held across the cut connection are gone from the owner's point of view
-         /\ UNCHANGED <<ops, readHeld, writeHeld, started, done, maybe, bad>>
+         \* guards held across the cut connection are gone from the owner's point of view; a commit in flight may or may not arrive
+         /\ readHeld' = {o \in readHeld : ~Remote(o)} /\ writeHeld' = {o \in writeHeld : ~Remote(o)}
+         /\ maybe' = (maybe \/ \E o \in writeHeld : Remote(o)) 
+         /\ UNCHANGED <<ops, started, done, bad>>
 End == /\ Is("rw_end")
        /\ bad' = IF Ev.pending > 0 THEN Flag("C17", "lock requests still pending although every guard was released (deadlock)") ELSE bad
        /\ UNCHANGED <<ops, readHeld, writeHeld, started, done, maybe, cut>>
